@@ -332,3 +332,40 @@ def obs_equiv(cx, a, b, label):
         for k in range(L):
             ok &= cx.prove_eq(ga[k] if ga is not None else 0, gb[k] if gb is not None else 0, label + ':grad[%s][%d]' % (cn, k))
     return ok
+
+
+def eq_obs(cx, a, b, label):
+    """two library objects (Obs / CObs / number / ndarray of them) are the same object-value:
+    same type, same chains and configuration lists, equal value / fluctuations / gradients (solver)"""
+    import pyerrors as pe
+    if isinstance(a, np.ndarray) or isinstance(b, np.ndarray):
+        aa, bb = np.asarray(a, dtype=object), np.asarray(b, dtype=object)
+        if not cx.expect(aa.shape == bb.shape, label + ':shape', '%s vs %s' % (aa.shape, bb.shape)):
+            return False
+        ok = True
+        for idx in np.ndindex(aa.shape):
+            ok &= eq_obs(cx, aa[idx], bb[idx], '%s%s' % (label, list(idx)))
+        return ok
+    if isinstance(a, pe.CObs) or isinstance(b, pe.CObs):
+        if not cx.expect(isinstance(a, pe.CObs) and isinstance(b, pe.CObs), label + ':type', '%s vs %s' % (type(a).__name__, type(b).__name__)):
+            return False
+        return eq_obs(cx, a.real, b.real, label + ':re') & eq_obs(cx, a.imag, b.imag, label + ':im')
+    if isinstance(a, pe.Obs) or isinstance(b, pe.Obs):
+        if not cx.expect(isinstance(a, pe.Obs) and isinstance(b, pe.Obs), label + ':type', '%s vs %s' % (type(a).__name__, type(b).__name__)):
+            return False
+        if not cx.expect(sorted(a.names) == sorted(b.names), label + ':names', '%s vs %s' % (a.names, b.names)):
+            return False
+        ok = cx.prove_eq(a.value, b.value, label + ':value')
+        for n in a.names:
+            if n in a.covobs:
+                ok &= cx.prove_eq(list(np.asarray(a.covobs[n].grad, dtype=object).ravel()), list(np.asarray(b.covobs[n].grad, dtype=object).ravel()), label + ':grad[%s]' % n)
+                continue
+            if not cx.expect(list(a.idl[n]) == list(b.idl[n]), label + ':idl[%s]' % n):
+                return False
+            ok &= cx.prove_eq(list(a.deltas[n]), list(b.deltas[n]), label + ':deltas[%s]' % n)
+            ok &= cx.prove_eq(a.r_values[n], b.r_values[n], label + ':r_value[%s]' % n)
+        ok &= cx.expect(bool(a.reweighted) == bool(b.reweighted), label + ':reweighted')
+        return ok
+    if a is None or b is None:
+        return cx.expect(a is None and b is None, label + ':none', '%r vs %r' % (a, b))
+    return cx.prove_eq(a, b, label)
